@@ -197,6 +197,18 @@ def r2(run, ctx):
         r = reach_under(cfg, n, status_given, avoid=waits)
         run.check('R2', cfg.exit.id not in r, 'reap_process waits for the child it untracks '
                   '(when no status was supplied)', f, n.ast)
+    # the wait status is only ever what waitpid / Popen.wait returned (or None = retry)
+    for n in ctx.live_nodes(f):
+        if n.kind == 'stmt' and isinstance(n.ast, ast.Assign):
+            for t in astq.attr_targets(n.ast):
+                if isinstance(t, ast.Name) and t.id == 'status':
+                    v = n.ast.value
+                    ok = astq.const_value(v, 0) is None or (
+                        isinstance(v, ast.Call) and (dotted(v.func) == 'os.waitpid' or
+                                                     astq.call_last(v) == 'wait'))
+                    run.check('R2', ok, 'the wait status comes from waitpid only', f, n.ast,
+                              'reap_process fabricates a wait status (%s): the child is untracked '
+                              'without having been waited for' % norm_text(v))
 
 
 def r3(run, ctx):
@@ -218,9 +230,9 @@ def r3(run, ctx):
         run.check('R3', a1 == 'os.WNOHANG', 'non-blocking wait', f, n.ast)
         # loop: n reaches itself, also when the pid is not a tracked one
         def not_member(e):
-            if isinstance(e, ast.Compare) and isinstance(e.ops[0], ast.In) and \
+            if isinstance(e, ast.Compare) and isinstance(e.ops[0], (ast.In, ast.NotIn)) and \
                     isinstance(e.left, ast.Name) and e.left.id == 'pid':
-                return False
+                return isinstance(e.ops[0], ast.NotIn)
             if isinstance(e, ast.Name) and e.id == 'pid':
                 return True
             return None
